@@ -20,3 +20,17 @@ Proof.
   intros Hwf HL. destruct (from_opchains_ok_model R chains L idn Hwf HL) as [g Hg].
   exists g. split; [exact Hg|]. apply (from_opchains_den_full R cover_model chains L idn g HL Hg).
 Qed.
+
+From PT Require Import Proofs.FromOpchainsCons.
+
+(* headline: well-formed chains, the proved model of minimum_vertex_cover, no hypothesis on covers *)
+Theorem from_opchains_total_model_cons (R : cring) (chains : list (chain R)) L idn :
+  wf_chains L chains = true -> (1 <= L)%nat ->
+  exists g, from_opchains cover_model chains L idn = Ok g /\ linked g = true /\
+            (forall fuel b, is_consistent_fuel fuel g = Some b -> b = true) /\
+            forall w, den g w = chains_den L idn chains w.
+Proof.
+  intros Hwf HL. destruct (from_opchains_total_model R chains L idn Hwf HL) as [g [Hg [Hl Hd]]].
+  exists g. split; [exact Hg|]. split; [exact Hl|]. split; [|exact Hd].
+  apply (from_opchains_consistent R cover_model chains L idn g HL Hg).
+Qed.
